@@ -315,6 +315,9 @@ func (v *jv) at(p jpath) *jv {
 		case string:
 			cur = cur.get(x)
 		case int:
+			if cur.Kind != jArr || x < 0 || x >= len(cur.Arr) { // the path may predate an array-drop perturbation
+				return nil
+			}
 			cur = cur.Arr[x]
 		}
 		if cur == nil {
